@@ -76,7 +76,7 @@ type DeclCfg struct {
 }
 
 var shortPoolASCII = []rune("abcdefgijklmnopqrstuvwxyzABCDEFGHIJKLMNOPQRSTUVWXYZ0123456789")
-var shortPoolWide = []rune("éßλЖ世😀ñø")
+var shortPoolWide = []rune("éßλЖ世😀ñø\ufffd")
 
 type namer struct {
 	r       *Rand
